@@ -37,7 +37,7 @@ SHRINK_STRINGS = ("data",)
 
 json_scalars = st.one_of(
     st.none(), st.booleans(), st.integers(-5, 300), st.sampled_from((10**30, -1, 256, 101, 1.5, float("nan"), float("inf"), -0.0)),
-    st.text(max_size=6), st.sampled_from(("", "1", "x", "18", "true", "null", "2.0")),
+    st.text(max_size=6), st.sampled_from(("", "1", "x", "18", "true", "null", "2.0", "\ud800", "a\udfff", "\x00", "²", "①")),
 )
 json_values = st.recursive(
     json_scalars,
@@ -152,11 +152,12 @@ def enumerate_cases(tier: str):
     for cut in range(len(text) + 1):
         yield {"kind": "content", "origin": "prefix", "data": text[:cut]}
     for key in list(fixture["1"]):
-        for value in (None, 5, "x", [], {}, True, 1.5, -1, 300, "5", float("inf"), float("-inf"), float("nan"), 1e308, -0.0, 2.5, 1e22, 2**63, -(2**63), 10**40):
+        for value in (None, 5, "x", [], {}, True, 1.5, -1, 300, "5", float("inf"), float("-inf"), float("nan"), 1e308, -0.0, 2.5, 1e22, 2**63, -(2**63), 10**40,
+                      "\ud800", "a\udfffb", "\udc00\ud800", "\x00", "x" * 70000, "\ufeff", "٣", "²"):
             doc = json.loads(text)
             doc["1"][key] = value
             yield {"kind": "content", "origin": "mutated", "data": json.dumps(doc)}
-    for value in (None, 5, "x", [], {}, True, 1.5, [1], {"id": 1}, {"x": 1}, float("inf"), float("-inf"), float("nan"), 1e308, 2**63, 10**40):
+    for value in (None, 5, "x", [], {}, True, 1.5, [1], {"id": 1}, {"x": 1}, float("inf"), float("-inf"), float("nan"), 1e308, 2**63, 10**40, "\ud800", "a\udfffb", "\udc00\ud800", "\x00"):
         doc = json.loads(text)
         doc["1"]["children"]["1"] = value
         yield {"kind": "content", "origin": "mutated", "data": json.dumps(doc)}
@@ -171,6 +172,9 @@ def enumerate_cases(tier: str):
         doc["1"]["children"]["1"]["values"] = {"49": value, "x": "1"}
         yield {"kind": "content", "origin": "mutated", "data": json.dumps(doc)}
     rec = {"node_id": 1, "node_type": 17, "protocol_version": "2.0"}
+    for key in ("²", "1³", "①", "٣", "१", "9" * 4400, "-" + "9" * 4400, "\ud800", "1\x00", " 1", "1 ", "+1", "1_0", "0x1", "1e1"):
+        yield {"kind": "content", "origin": "odd-key", "data": json.dumps({key: rec, "2": dict(rec, node_id=2)})}
+        yield {"kind": "content", "origin": "odd-key", "data": json.dumps({"1": dict(rec, children={key: {"child_id": 1, "child_type": 6, "values": {key: "1"}}})})}
     for count in (255, 256, 257, 300, 1000):
         yield {"kind": "content", "origin": "many-entries", "data": json.dumps({str(i): dict(rec, node_id=i % 256) for i in range(count)})}
         yield {"kind": "content", "origin": "many-entries", "data": json.dumps({str(i): 5 for i in range(count)})}
